@@ -9,7 +9,7 @@ func init() {
 		skelTarget{Name: "c02.HookController.UpdateSnapshots", File: "pkg/hook/controller/hook_controller.go", Recv: "HookController", Func: "UpdateSnapshots",
 			Fields: []string{"KubernetesController", "Snapshots", "Objects", "IncludeSnapshots"},
 			Calls:  []string{"getIncludeSnapshotsFrom", "SnapshotsFor"}},
-		skelTarget{Name: "c02.monitor.CreateInformersForNamespace", File: "pkg/kube_events_manager/monitor.go", Recv: "monitor", Func: "CreateInformersForNamespace",
+		skelTarget{Name: "c02.monitor.CreateInformersForNamespace", File: "pkg/kube_events_manager/monitor.go", Recv: "monitor", Func: "createInformersForNamespace",
 			Fields: []string{"Config"},
 			Calls:  []string{"names", "newResourceInformer", "createSharedInformer"}},
 		skelTarget{Name: "c02.ByNamespaceAndName.Less", File: "pkg/kube_events_manager/types/types.go", Recv: "ByNamespaceAndName", Func: "Less",
